@@ -87,7 +87,9 @@ OwnerDone(s) ==
   /\ spc[s] = "owner" /\ spc' = [spc EXCEPT ![s] = "sent"]
   /\ UNCHANGED <<row, age, rpc, created, crashes, epoch, holder, owners, lastOp>>
 
-Tick == /\ row = "releasing" /\ age <= T /\ age' = age + 1
+\* time passes in every state of the row: a run that has been active (or released) for longer than the crash timeout is the
+\* normal case, and begin_release / try_begin_resume stamp updated_at anew (age' = 0 in their actions)
+Tick == /\ row \in {"active", "releasing", "released"} /\ age <= T /\ age' = age + 1
         /\ UNCHANGED <<row, rpc, spc, created, crashes, epoch, holder, owners, lastOp>>
 
 Next == Create \/ Tick
